@@ -17,7 +17,8 @@
    (go/cmd/soyverif/c04.go: every generated program is translated by the real
    soyjs.Write, run by node with soyutils.js and compared with the Go render).
    Stages kept for the record:
-     gen_correct_partial_print  : print / if / let / switch      -- not proved
+     gen_correct_partial_print  : ONE {print e} under autoescape off -- proved below;
+                                  if / let / switch and sequences  -- not proved
      gen_correct_partial_loops  : foreach / for / loop helpers   -- not proved
      gen_correct_partial_calls  : call / param / data=           -- not proved
      gen_correct_partial_msg    : msg / plural with a bundle     -- not proved
@@ -35,7 +36,7 @@ Theorem C04_gen_expr_correct_partial : forall cf sc je st e fuel v,
   (cdepth e < fuel)%nat ->
   env_rel sc (c_ij cf) (sc_lookup (ctx st)) je ->
   ceval (c_ij cf) (sc_lookup (ctx st)) e = Some v ->
-  (exists st', walk cf fuel (cnode e) st = (Ok v, st') /\ ctx st' = ctx st)
+  (exists st', walk cf fuel (cnode e) st = (Ok v, st') /\ pres st st')
   /\ js_eval je (cgen sc e) = Ok (to_js v).
 Proof. exact gen_expr_correct_partial. Qed.
 Print Assumptions C04_gen_expr_correct_partial.
@@ -62,6 +63,31 @@ Theorem C04_cgen_print : forall o e fuel st, (cdepth e < fuel)%nat ->
 Proof. exact cgen_print. Qed.
 Print Assumptions C04_cgen_print.
 
+(* the print stage, for one statement: with autoescaping off, no obligatory
+   directives and a writer that does not fail, {print e} makes the Go renderer
+   write exactly the text that the generated statement  buf += <expr>;  appends
+   to the buffer variable; and that statement is what JsGen emits *)
+Theorem C04_gen_correct_partial_print : forall cf sc je st e fuel v buf old,
+  c_oblig cf = [] -> mode st = 2 -> bufs st = [] -> calls_left st = None -> bytes_left st = None ->
+  (S (cdepth e) < fuel)%nat ->
+  env_rel sc (c_ij cf) (sc_lookup (ctx st)) je ->
+  ceval (c_ij cf) (sc_lookup (ctx st)) e = Some v -> printable_scalar v = true ->
+  assoc_s buf (je_vars je) = Some (JStr old) ->
+  exists s,
+    (exists st', walk cf fuel (NPrint 0 (cnode e) []) st = (Ok VUndef, st')
+                 /\ out st' = s :: out st /\ ctx st' = ctx st /\ mode st' = mode st)
+    /\ (exists je', js_append je buf (cgen sc e) = Ok (s, je')
+                    /\ assoc_s buf (je_vars je') = Some (JStr (old ++ s)) /\ je_data je' = je_data je).
+Proof. exact gen_correct_partial_print. Qed.
+Print Assumptions C04_gen_correct_partial_print.
+
+Theorem C04_cgen_print_stmt : forall o e fuel st, j_auto st = 2 -> (S (cdepth e) < fuel)%nat ->
+  jwalk o fuel (NPrint 0 (cnode e) []) st
+  = Ok (tt, st_after st ([CText (indent_text (j_indent st)); CName (j_buf st); CText t_pluseq]
+                         ++ jprint (cgen (j_scope st) e) ++ [CText t_semi_nl])).
+Proof. exact cgen_print_stmt. Qed.
+Print Assumptions C04_cgen_print_stmt.
+
 (* ---------------- non-vacuity ---------------- *)
 (* $a?.b + 2 * $x  with  a = {b: 5} in opt_data and x bound by a let (generated variable x3) *)
 Definition ex_e : cexpr :=
@@ -80,6 +106,13 @@ Example C04_nonvacuous :
   /\ ceval None (fun _ => None) (CVar (b "a") [CAKey false (b "b")]) = None
   /\ ceval None ex_env (CBin OMul (CInt 9007199254740992) (CInt 2)) = None.
 Proof. vm_compute. repeat split; reflexivity. Qed.
+
+Example C04_print_nonvacuous :
+  js_append {| je_vars := [(b "output", JStr (b "ab")); (b "x3", JNum 4)]; je_data := JObj [(b "a", JObj [(b "b", JNum 5)])] |}
+            (b "output") (cgen ex_sc ex_e)
+  = Ok (b "13", {| je_vars := [(b "output", JStr (b "ab13")); (b "x3", JNum 4)]; je_data := JObj [(b "a", JObj [(b "b", JNum 5)])] |})
+  /\ printable_scalar (VInt 13) = true.
+Proof. vm_compute. split; reflexivity. Qed.
 
 (* env_rel is satisfiable for that environment: x is in the generated variable, a in opt_data *)
 Example C04_env_rel_nonvacuous : env_rel ex_sc None ex_env ex_je.
